@@ -194,6 +194,23 @@ CHECKS = {
              "More/InputOffset/Token. Hooks: internal/decoder/stream.go read()/reset() (build tag verif).",
         technique="TLA+ window-protocol spec model-checked by TLC; scripted-reader schedule replay; TLC trace validation of hook events",
         engine="StreamDecoder", design="8/C09"),
+    "C14": dict(
+        level="model_checking",
+        text="TypeLayout.tla models AnalyzeTypeAddr's inference (lowest / highest listed descriptor, alignment relative to the running "
+             "minimum, every listing order) and the slot arithmetic of the address-indexed caches; TLC proves for every layout of up to "
+             "3/4 descriptors (48..112 bytes, 32- and 64-byte placement, listed / pointer-with-element / unlisted, heap descriptors below "
+             "and above the window) that every in-window descriptor has its own slot inside the table and that nothing outside the window "
+             "reaches the table, and FINDS the counterexamples of four named deviations (16-byte alignment, capped shift, the decoder's "
+             "missing lower bound before fix 4477a51, table one slot short); TypeCache.tla's deviation SharedSlot shows that a shared slot "
+             "returns another type's program. Binding: a generated worker binary with 1000/3000 families x 12 named and unnamed types plus "
+             "reflect-created types, built from /repo as production, -race and position-independent executable, encodes and decodes every "
+             "type cold in seeded orders against encoding/json, and TLC validates every recorded return of CompileToGetCodeSet / "
+             "CompileToGetDecoder against TypeCacheTrace.tla (guard, index arithmetic, bound, own type, one type per slot, one type per program).",
+        note="trusted: TLC; encoding/json for the expected documents; the linker's real layouts are sampled (3 flavours x the generated type "
+             "set), not enumerated - the spec states the geometric assumption (descriptors >= 64 bytes apart) and the harness measures it "
+             "on each binary. Hooks: internal/{encoder,decoder}/compile*_{race,norace}.go (build tag verif).",
+        technique="TLA+ address-window spec model-checked by TLC (four named deviations); TLC trace validation of recorded cache lookups from generated many-types binaries in three build flavours; output differential",
+        engine="TypeLayout", design="8/C14"),
     "C19": dict(
         level="model_checking",
         text="FieldQuery.tla: queries are sets of selector paths into a struct tree that reaches a pointer, a value struct, a slice, a "
@@ -262,9 +279,13 @@ def main():
 
 
 NA = {}
-HOOK_COMMITS = ["cb16685", "7053e9c"]
-FIX_COMMITS = ["3ba2124", "35e540e", "5d9c0a9", "182cdbb", "c177d40", "4cc9b5c", "e04537c", "f4cd737", "4b54f48", "54b79dc", "663fc64"]
+HOOK_COMMITS = ["cb16685", "7053e9c", "17a7452"]
+FIX_COMMITS = ["3ba2124", "35e540e", "5d9c0a9", "182cdbb", "c177d40", "4cc9b5c", "e04537c", "f4cd737", "4b54f48", "54b79dc", "663fc64", "4477a51", "371b1d0"]
 ENGINES = [
+    dict(name="TypeLayout", path="specs/TypeLayout.tla", serves_properties=["C14"],
+         kind_free_text="TLA+ model of the type-address window inference and slot arithmetic (TypeLayout.tla) and trace specification TypeCacheTrace.tla for recorded cache lookups"),
+    dict(name="TypeCache", path="specs/TypeCache.tla", serves_properties=["C10", "C14"],
+         kind_free_text="TLA+ model of concurrent first-use lookups in the per-type caches (production and race-build variants, copy-on-write map, nested lookup for field-query hashes); schedule export for cooperative-scheduler replay"),
     dict(name="EncVM", path="specs/EncVM.tla", serves_properties=["C08"],
          kind_free_text="TLA+ model of the encoder VM's scratch-slot frames (EncVM.tla, EncVMRules.tla) and trace specification EncVMTrace.tla"),
     dict(name="MemLayout", path="specs/MemLayout.tla", serves_properties=["C07"],
